@@ -803,6 +803,31 @@ impl Report {
         self.coverage.insert(key.to_string(), json!(cur + n));
     }
 
+    pub fn append_cov(&mut self, key: &str, items: Vec<Value>) {
+        let mut cur = self
+            .coverage
+            .get(key)
+            .and_then(|v| v.as_array().cloned())
+            .unwrap_or_default();
+        cur.extend(items);
+        self.coverage.insert(key.to_string(), Value::Array(cur));
+    }
+
+    pub fn and_cov(&mut self, key: &str, b: bool) {
+        let cur = self.coverage.get(key).and_then(|v| v.as_bool()).unwrap_or(true);
+        self.coverage.insert(key.to_string(), json!(cur && b));
+    }
+
+    pub fn concat_cov(&mut self, key: &str, text: &str) {
+        let cur = self
+            .coverage
+            .get(key)
+            .and_then(|v| v.as_str().map(|s| s.to_string()))
+            .unwrap_or_default();
+        let t = if cur.is_empty() { text.to_string() } else { format!("{cur} || {text}") };
+        self.coverage.insert(key.to_string(), json!(t));
+    }
+
     pub fn violation(&mut self, message: String, replay: Value) {
         if self.violations.len() < 50 {
             self.violations.push(Violation {
